@@ -398,3 +398,59 @@ func usedAsValue(p *packages.Package, fn *types.Func) bool {
 	}
 	return used
 }
+
+// containsCallToObj: n contains a direct call of the function (or method) fn.
+func containsCallToObj(info *types.Info, n ast.Node, fn types.Object) bool {
+	found := false
+	ast.Inspect(n, func(m ast.Node) bool {
+		if call, ok := m.(*ast.CallExpr); ok {
+			if f := calleeOf(info, call); f != nil && types.Object(f) == fn {
+				found = true
+			}
+		}
+		return !found
+	})
+	return found
+}
+
+// paramSelectors visits every field selection whose chain starts at the parameter prm of fd (prm.A.B visits prm.A and
+// prm.A.B), in fd and in the package-local functions fd hands the parameter on to as it is (two levels).
+func paramSelectors(p *packages.Package, fd *ast.FuncDecl, prm types.Object, depth int, visit func(se *ast.SelectorExpr)) {
+	if fd == nil || fd.Body == nil || prm == nil || depth > 2 {
+		return
+	}
+	info := p.TypesInfo
+	ast.Inspect(fd.Body, func(n ast.Node) bool {
+		switch x := n.(type) {
+		case *ast.SelectorExpr:
+			root := ast.Expr(x)
+			for {
+				if s2, ok := ast.Unparen(root).(*ast.SelectorExpr); ok {
+					root = s2.X
+					continue
+				}
+				break
+			}
+			if id, ok := ast.Unparen(root).(*ast.Ident); ok && info.ObjectOf(id) == prm {
+				visit(x)
+			}
+		case *ast.CallExpr:
+			fn := calleeOf(info, x)
+			if fn == nil || fn.Pkg() != p.Types {
+				return true
+			}
+			for i, a := range x.Args {
+				if id, ok := ast.Unparen(a).(*ast.Ident); ok && info.ObjectOf(id) == prm {
+					for _, h := range allFuncDecls(p) {
+						if info.Defs[h.Name] == types.Object(fn) {
+							if ps := paramObjs(info, h); i < len(ps) {
+								paramSelectors(p, h, ps[i], depth+1, visit)
+							}
+						}
+					}
+				}
+			}
+		}
+		return true
+	})
+}
